@@ -7,7 +7,8 @@
    functions on its dependency path, not just the one the postcondition sits on.
 """
 
-ORDER = ['mod:m_order', 'fn:Version::cmp', 'fn:Version::partial_cmp', 'fn:Version::eq', 'fn:Version::is_prerelease']
+# optfn: = an obligation only when the function exists in the source (a hand written impl replacing a derive)
+ORDER = ['mod:m_order', 'fn:Version::cmp', 'fn:Version::partial_cmp', 'fn:Version::eq', 'fn:Version::is_prerelease', 'optfn:Identifier::cmp', 'optfn:Identifier::partial_cmp', 'optfn:Identifier::eq']
 BOUNDS = ['mod:m_bound_spec', 'fn:Predicate::flip', 'fn:Bound::upper', 'fn:Bound::lower', 'fn:Bound::predicate', 'fn:Bound::cmp',
           'fn:Bound::partial_cmp', 'fn:BoundSet::new', 'fn:BoundSet::at_least', 'fn:BoundSet::at_most', 'fn:BoundSet::exact']
 RANGE_SPEC = ['mod:m_range_spec']
